@@ -170,7 +170,7 @@ def classify_exc(e):
         return 'err:order'
     if isinstance(e, E.DiffXContentError):
         return 'err:content'
-    if isinstance(e, E.DiffXOptionValueChoiceError):
+    if isinstance(e, E.DiffXOptionValueError):
         return 'err:option'
     if isinstance(e, TypeError):
         return 'err:TypeError'
